@@ -152,6 +152,10 @@ pub fn run_height_case(c: HCase, trace: &mut Vec<String>) -> (Vec<Failure>, bool
             let top = chain(&v.watch(), small_h - 1);
             let o = top.observe();
             st.stabilise();
+            if crate::choice::dv() >= 2 {
+                // a write is pending when the limit is reconfigured: it must not get lost
+                v.set(20);
+            }
             st.set_max_height_allowed(n);
             (st, Some((v, o, small_h)))
         }
@@ -204,7 +208,8 @@ pub fn run_height_case(c: HCase, trace: &mut Vec<String>) -> (Vec<Failure>, bool
                 }
                 if let Some((_, o, sh2)) = &small {
                     let g = o.try_get_value();
-                    if g != Ok(10 + *sh2 as i32 - 1) {
+                    let base = if crate::choice::dv() >= 2 { 20 } else { 10 };
+                    if g != Ok(base + *sh2 as i32 - 1) {
                         fails.push(fail("value", format!("the graph that was in use during reconfiguration returned {g:?}")));
                     }
                 }
@@ -228,6 +233,11 @@ pub fn run_height_case(c: HCase, trace: &mut Vec<String>) -> (Vec<Failure>, bool
     // ---- an admissible reconfiguration at the end (only when nothing went wrong)
     let poisoned = stages.iter().any(|(sh, _)| (*sh as i32 + off) > n as i32);
     if !poisoned && fails.is_empty() {
+        let v2 = crate::choice::dv() >= 2;
+        if v2 {
+            // reconfiguring is allowed at any quiescent point, also between a write and the stabilise
+            built._keep[0].set(6);
+        }
         let up = guarded(|| st.set_max_height_allowed(n + 3));
         if let Err(m) = up {
             fails.push(fail("admissible-reconfiguration-panicked", format!("raising the limit from {n} to {} at a quiescent point panicked: {m}", n + 3)));
@@ -235,6 +245,13 @@ pub fn run_height_case(c: HCase, trace: &mut Vec<String>) -> (Vec<Failure>, bool
         let r = guarded(|| st.stabilise());
         if let Err(m) = r {
             fails.push(fail("admissible-reconfiguration-panicked", format!("stabilise after raising the limit panicked: {m}")));
+        } else if v2 {
+            let gain = if c.shape == 2 { 2 } else { 1 };
+            let want = stages.last().unwrap().1 + 5 * gain;
+            let got = obs.try_get_value();
+            if got != Ok(want) {
+                fails.push(fail("value", format!("a variable was written, then the limit raised from {n} to {}, then stabilise ran: the observer returned {got:?}, expected {want}", n + 3)));
+            }
         }
     }
     // ---- everything can still be dropped
